@@ -155,6 +155,14 @@ class Interface(ModelElement):
         #    raise TopologyException("Cannot remove child interface interface from Interface in Experiment topology")
         node_id = self.topo.graph_model.find_child_connection_point_by_name(parent_node_id=self.node_id,
                                                                             iname=name)
+        # disconnect if connected to a network service (removes the matching ServicePort)
+        child = Interface(name=name, node_id=node_id, topo=self.topo)
+        peers = child.get_peers(itype=InterfaceType.ServicePort)
+        if peers:
+            if len(peers) == 1:
+                self.topo.get_parent_element(peers[0]).disconnect_interface(child)
+            else:
+                raise TopologyException(f'Interface {name} has more than one peer, this is a model error.')
 
         self.topo.graph_model.remove_cp_and_links(node_id=node_id, delete_parent=False)
         # remove from interface list as well
